@@ -422,6 +422,126 @@ def c08_hist_classify(line, res):
     return "hits=%s misses=%s" % ("0" if h == 0 else "1-2" if h < 3 else "3+", "0" if m == 0 else "1-2" if m < 3 else "3+")
 
 
+# ---------------- routerhist (real router, real upstream over TCP, scripted upstream server)
+BEH_L = dict(nx=30000, nd=30000, sf=1000, rf=5000)
+
+
+def beh_reply(beh):
+    """(rcode, tc, ttls, lifetime bound ms per the property's table with the default maximum) or None for a failure"""
+    if beh == "fail":
+        return None
+    if beh == "tc":
+        return (0, True, [60], None)
+    if beh.startswith("p"):
+        t = int(beh[1:])
+        return (0, False, [t, t + 5], max(1000, t * 1000))
+    rc = dict(nx=3, nd=0, sf=2, rf=5)[beh]
+    return (rc, False, [], BEH_L[beh])
+
+
+def parse_qops(s):
+    return [dict(at=int(p[1]), key=int(p[2]), beh=p[3]) for p in (t.split(".") for t in s.split(","))]
+
+
+def c08_router_oracle(line, res):
+    if res.startswith("HARNESS-ERROR"):
+        return None
+    f = gens.fields(line)
+    ops = parse_qops(f["ops"])
+    toks = res.split(" ")
+    if len(toks) != len(ops):
+        return None
+    mxcfg = int(f["maxttl"])
+    mx = mxcfg * 1000 if mxcfg > 0 else 21600000
+    for j, (op, tok) in enumerate(zip(ops, toks)):
+        if "!id" in tok:
+            return "query #%d: response id differs from the query id" % j
+        if not tok.startswith("C"):
+            continue
+        head, ttl_s = tok[1:].split(":")
+        got = [int(x) for x in ttl_s.split("_")] if ttl_s else []
+        if head.endswith("t"):
+            return "query #%d was served a truncated response from cache" % j
+        rcode = int(head)
+        ok = False
+        why = "no earlier successful upstream exchange of this key"
+        for i in range(j):
+            o = ops[i]
+            if o["key"] != op["key"] or not toks[i].startswith("U"):
+                continue
+            rep = beh_reply(o["beh"])
+            if rep is None or rep[1]:
+                why = "the only earlier exchanges of this key failed or were truncated"
+                continue
+            rc, _, ttls, L = rep
+            L = min(L, mx)
+            el = op["at"] - o["at"]
+            if rc != rcode or len(ttls) != len(got):
+                continue
+            if el - SLACK >= L + 2000:
+                why = "the matching exchange #%d is %d ms old, lifetime %d ms (+2 s allowance)" % (i, el, L)
+                continue
+            dmin = max(0, (el - SLACK) // 1000)
+            if any(t1 > max(1, t0 - dmin) for t0, t1 in zip(ttls, got)):
+                why = "served TTLs %s exceed max 1 (ttl - %d s) of exchange #%d" % (got, dmin, i)
+                continue
+            ok = True
+            break
+        if not ok:
+            return "query #%d answered from cache (%s): %s" % (j, tok, why)
+    return None
+
+
+def router_ok_times(ops, mxcfg):
+    """every (query, later query of the same key) pair must be clear of the expiry band of the entry the first may
+    have created, and of the last quarter of its life (a hit there starts a prefetch: C19, not modelled here)"""
+    mx = mxcfg * 1000 if mxcfg > 0 else 21600000
+    for i, a in enumerate(ops):
+        rep = beh_reply(a["beh"])
+        if rep is None or rep[3] is None:
+            continue
+        L = min(rep[3], mx)
+        for b in ops[i + 1:]:
+            if b["key"] != a["key"]:
+                continue
+            el = b["at"] - a["at"]
+            if el % 1000 < 200 or el % 1000 > 800:   # served TTLs must not hinge on < 200 ms of scheduling
+                return False
+            sure_hit = el <= L - 1250 and el <= (3 * L) // 4 - 300
+            sure_miss = el >= L + 300
+            if not (sure_hit or sure_miss):
+                return False
+    return True
+
+
+def c08_router_gen(rng, tier):
+    out = []
+    want = budget(tier, 60, 1000)
+    n = tries = 0
+    while n < want and tries < want * 500:
+        tries += 1
+        mxcfg = rng.choice([0, 0, 0, 3])
+        at = 0
+        ops = []
+        for i in range(rng.randrange(3, 10)):
+            beh = rng.choice(["p4", "p4", "p6", "p2", "p0", "p300", "nx", "nd", "sf", "rf", "tc", "fail", "fail"])
+            ops.append(dict(at=at, key=rng.choice([1, 1, 1, 2]), beh=beh))
+            at += rng.choice([100, 250, 350, 400, 600, 750, 1250, 1300, 1500, 2250])
+            if at > 7000:
+                break
+        if not router_ok_times(ops, mxcfg):
+            continue
+        out.append("q%d maxttl=%d ops=%s" % (n, mxcfg, ",".join("q.%d.%d.%s" % (o["at"], o["key"], o["beh"]) for o in ops)))
+        n += 1
+    return out
+
+
+def c08_router_classify(line, res):
+    t = res.split(" ")
+    c = sum(1 for x in t if x.startswith("C"))
+    return "cached=%s of %s" % ("0" if c == 0 else "1-2" if c < 3 else "3+", "<=4" if len(t) <= 4 else ">4")
+
+
 C08_TRUST = [
     "C08: otter v1.2.0 is modelled, not verified: a map keyed by the cache key, TTL rounded up to whole seconds, a "
     "clock of whole seconds published by a 1 s ticker (not ahead of the wall clock, lagging < 1 s from the ticker's "
@@ -444,6 +564,9 @@ PROPS["C08"] = dict(
         dict(name="cachehist", gen=c08_hist_gen, oracle=c08_hist_oracle, compare=c08_hist_compare,
              classify=c08_hist_classify, shards=4,
              nontrivial=lambda l, r: "H" in r or "M" in r, timeout=600),
+        dict(name="routerhist", gen=c08_router_gen, oracle=c08_router_oracle, compare=c08_hist_compare,
+             classify=c08_router_classify, shards=4,
+             nontrivial=lambda l, r: r.startswith("U") or r.startswith("C"), timeout=600),
     ],
     rule="policy: the real initCache + cacheCtl.Store on a real MemoryCache, read back with cacheCtl.Get: every rcode 0..15 "
          "x {record-less, OPT only, TTL catalogue incl. 0, 1, 2^31, 2^32-1}, 17 maximum-TTL settings (default, caps, "
@@ -453,7 +576,10 @@ PROPS["C08"] = dict(
          "k s + 0.3..0.6 s in the past (k up to 2^32-2). cachehist: quiescent Store/Get/nil histories on the real clock "
          "(lifetimes 1-3 s, negative-after-positive, positive-after-negative, expiry), model evaluated for 20 ticker "
          "phases x every choice of expired-node collection; positions where those disagree are compared as 'either'. "
-         "distinct = distinct case line",
+         "routerhist: a real router (real run(), real tcp upstream transport, forward-all rule, memory cache) fed client "
+         "queries through handleServerReq against a scripted upstream (positive / NXDOMAIN / NODATA / SERVFAIL / REFUSED / "
+         "TC / connection closed); observed per query: upstream contacted or not, rcode, TC, answer TTLs; the model walks "
+         "handle_req_store (only miss + reply stores). distinct = distinct case line",
     assumptions=["otter clock model (see trusted base); cachehist ops are scheduled >= 200 ms away from whole-second "
                  "distances to the stores they depend on, and a case whose ops ran > 150 ms late is re-run once, then "
                  "reported as a harness note, never as an alarm",
